@@ -31,7 +31,10 @@ def digest(obj, depth=0, seen=None):
                 h.update(np.ascontiguousarray(v).tobytes())
         return h.digest()
     if sp.issparse(obj):
-        o = obj.tocsr() if not sp.isspmatrix_csr(obj) and not sp.isspmatrix_csc(obj) else obj
+        # the MATRIX (its stored pattern and values, explicit zeros included), not the order in which a row's entries happen to be stored: SciPy's direct
+        # solvers sort the indices of the matrix they are handed in place, which changes the representation only
+        o = obj.tocsr(copy=True)
+        o.sort_indices()
         for a in (o.data, o.indices, o.indptr):
             h.update(np.ascontiguousarray(a).tobytes())
         return h.digest()
@@ -139,6 +142,7 @@ def frame_cases():
     mq = meshes["quad"]
     mpq = mq._mapping()
     tind = np.array([0, 2])
+    mpc_sys = mpc(A + fem.BilinearForm(lambda u, v, w: u * v).assemble(basis), b, S=np.array([0, 3]), M=np.array([1, 2]))
     ops = [
         ("basis/construct", [m, e], lambda: fem.Basis(m, e)),
         ("basis/interpolate", [basis, y], lambda: basis.interpolate(y)),
@@ -158,6 +162,7 @@ def frame_cases():
         ("bc/penalize", [A, b, x, D], lambda: penalize(A, b, x=x, D=D)),
         ("bc/solve", [A, b, x, D], lambda: solve(*condense(A, b, x=x, D=D))),
         ("bc/mpc", [A, b], lambda: mpc(A, b, S=np.array([0]), M=np.array([1]))),
+        ("bc/solve-mpc", list(mpc_sys[:3]) + [mpc_sys[3][0]], lambda: (solve(*mpc_sys), solve(*mpc_sys))),
         ("mapping/affine", [mp, X, tind], lambda: (mp.F(X, tind), mp.invF(mp.F(X, tind), tind), mp.detDF(X, tind), mp.DF(X))),
         ("mapping/iso", [mpq, X, tind], lambda: (mpq.F(X, tind), mpq.detDF(X, tind), mpq.invDF(X), mpq.invF(mpq.F(X, tind), tind))),
         ("coo/add-dot", [A, x], lambda: (form.elemental(basis, c=y) + form.elemental(basis, c=y)).tocsr() @ x),
@@ -445,6 +450,19 @@ def run_moved(payload):
                                            % (float(va), float(vb), np.array_equal(ba.doflocs, bb.doflocs), np.array_equal(ba.dx, bb.dx))))
             if getattr(ba.mapping, "mesh", None) is used:
                 fails.append(dict(input="%s mesh .%s()" % (name, mname), observed="ALIAS: the mapping of the result refers to the mesh it was computed from"))
+    # refinement is a function of the mesh and the marked set: the same call twice (with other refinements in between) gives the same mesh
+    for name, mk, marked in (("tet", lambda: fem.MeshTet().refined(1), np.array([0, 5])), ("tri", lambda: fem.MeshTri().refined(2), np.array([1, 4])),
+                             ("line", lambda: fem.MeshLine(np.linspace(0, 1, 5)), np.array([2]))):
+        cases += 1
+        m0 = mk()
+        r1 = m0.refined(marked)
+        mk().refined(np.array([0]))                       # an unrelated refinement in between
+        fem.MeshTet().refined(np.array([0, 1]))
+        r2 = m0.refined(marked)
+        r3 = mk().refined(marked)
+        if not (np.array_equal(r1.p, r2.p) and np.array_equal(r1.t, r2.t) and np.array_equal(r1.p, r3.p) and np.array_equal(r1.t, r3.t)):
+            fails.append(dict(input="%s mesh refined adaptively (marked %s) twice, with other refinements in between" % (name, marked.tolist()),
+                              observed="HISTORY: the two results differ (%d vs %d vs %d cells)" % (r1.t.shape[1], r2.t.shape[1], r3.t.shape[1])))
     for f in fails:
         f["replay"] = dict(kind="state_case", what="moved", seed=0, tier="quick")
     return cases, fails, ["moved/tri/translated"]
